@@ -467,14 +467,21 @@ func checkC08(c *Ctx) {
 	}
 	c.Extra("kill_restart_cycles", nkills)
 	c.Extra("kills_inside_a_request", ninside)
-	if len(traces) > 0 {
+	for _, si := range []int{0, len(plans) - 1} { // a random sequential program with its kill plan, and a concurrent one
+		if si < 0 || si >= len(traces) {
+			continue
+		}
 		var pts []string
-		for _, e := range traces[len(traces)-1] {
+		for _, e := range traces[si] {
 			if e.Ev == "Crash" {
 				pts = append(pts, e.Point)
 			}
 		}
-		c.Sample(map[string]interface{}{"source": "program with its kill plan", "program": stripProg(plans[len(plans)-1].Ops), "arm_at": plans[len(plans)-1].ArmAt, "kill_after": plans[len(plans)-1].KillAt, "kills_executed": pts})
+		smp := map[string]interface{}{"source": "program with its kill plan", "program": stripProg(plans[si].Ops), "arm_at": plans[si].ArmAt, "kill_after": plans[si].KillAt, "kills_executed": pts}
+		if plans[si].Parallel > 0 {
+			smp = map[string]interface{}{"source": "concurrent schema changes on six tables, then a kill, per round", "rounds": plans[si].Parallel, "recorded_events": len(traces[si]), "kills_executed": pts}
+		}
+		c.Sample(smp)
 	}
 	rj, _, err := validateBt(all)
 	if err != nil {
